@@ -707,6 +707,29 @@ def catalog():
                               {"default": True, "labels": [], "body": {"ty": "uint", "name": "dflt", "arr": None}}]},
                           {"k": "union", "name": "u4", "swty": "color", "swvar": "disc", "arms": [
                               {"labels": ["RED"], "body": None}, {"labels": ["BLUE"], "body": {"ty": "double", "name": "a", "arr": None}}]}])
+    # arm order: a default arm first and in the middle, a void arm first, the labels of a fall-through group in descending order
+    spec("union:arm-order", [
+        {"k": "union", "name": "dfirst", "swty": "int", "swvar": "d", "arms": [
+            {"default": True, "labels": [], "body": {"ty": "hyper", "name": "h", "arr": None}}, {"labels": ["1"], "body": {"ty": "int", "name": "a", "arr": None}},
+            {"labels": ["2"], "body": "void"}]},
+        {"k": "union", "name": "dmid", "swty": "unsigned int", "swvar": "d", "arms": [
+            {"labels": ["9", "5", "1"], "body": {"ty": "inner", "name": "a", "arr": None}}, {"default": True, "labels": [], "body": "void"},
+            {"labels": ["8", "7"], "body": {"ty": "string", "name": "s", "arr": None}}]},
+        {"k": "union", "name": "vfirst", "swty": "color", "swvar": "c", "arms": [
+            {"labels": ["BLUE"], "body": "void"}, {"labels": ["GREEN", "RED"], "body": {"ty": "sel", "name": "x", "arr": None}}]},
+        {"k": "struct", "name": "orders", "fields": [{"ty": "dfirst", "name": "a", "arr": ["var", ""], "opt": False}, {"ty": "dmid", "name": "b", "arr": ["fixed", "2"], "opt": False},
+                                                     {"ty": "vfirst", "name": "c", "arr": None, "opt": True}]}])
+    # optional links to every kind of named type (struct, union, enum, typedefs of each, typedef of opaque)
+    spec("optional:targets", [
+        {"k": "typedef", "ty": "color", "name": "tcolor", "arr": None}, {"k": "typedef", "ty": "sel", "name": "tsel", "arr": None},
+        {"k": "typedef", "ty": "opaque", "name": "tblob", "arr": ["var", "6"]}, {"k": "typedef", "ty": "inner", "name": "tinners", "arr": ["var", "2"]},
+        {"k": "typedef", "ty": "unsigned hyper", "name": "tbig", "arr": None},
+        {"k": "struct", "name": "opts", "fields": [{"ty": "inner", "name": "s", "arr": None, "opt": True}, {"ty": "sel", "name": "u", "arr": None, "opt": True},
+                                                   {"ty": "color", "name": "e", "arr": None, "opt": True}, {"ty": "tcolor", "name": "te", "arr": None, "opt": True},
+                                                   {"ty": "tsel", "name": "tu", "arr": None, "opt": True}, {"ty": "tblob", "name": "tb", "arr": None, "opt": True},
+                                                   {"ty": "tinners", "name": "ti", "arr": None, "opt": True}, {"ty": "tbig", "name": "tg", "arr": None, "opt": True},
+                                                   {"ty": "opts", "name": "again", "arr": None, "opt": True}, {"ty": "int", "name": "tail", "arr": None, "opt": False}]},
+        {"k": "typedef", "ty": "opts", "name": "optlist", "arr": ["var", "3"]}])
     # case labels in the upper half of the unsigned range (written as literals and through constants), next to the largest signed one
     spec("union:big-labels", [
         {"k": "const", "name": "TOP", "val": "4294967295"}, {"k": "const", "name": "MID", "val": "2147483648"},
